@@ -52,6 +52,10 @@ CHECKS = {
    technique="deviation-bounded exhaustive enumeration of the generator catalogue plus 16 reference topologies, parsed in batches by the real translator; reflection walk of the object graph checking pointer identity of every use against the defining lists",
    text="All variants with <=2 (thorough <=3) deviations of the catalogue, including 16 reference topologies (mutually referring globals, recursion, phi/branch cycles, use before definition in layout order, blockaddress into other functions / of equally named labels / inside metadata / in use-list orders, recursive and mutually recursive types, metadata cycles and forward references, aliases of aliases, shared comdats and attribute groups), are parsed in batches of 40 so that equally named locals of many functions coexist. A reflection walk visits every field of every definition: global-like operands must be pointer-identical to elements of Globals/Aliases/IFuncs/Funcs, block/param/instruction operands to elements of the enclosing function, blockaddress blocks to blocks of the named function, named types to the TypeDefs object, comdats, attribute groups and numbered metadata to the module's definitions; Parent links must agree with containment and no block may lack a terminator.",
    note="Identity is demanded for named entities, locals, named types, comdats, attribute groups and numbered metadata only (not for interned constants or primitive type singletons); inputs the parser rejects are outside the quantifier."),
+ "C05": dict(level="fault_enumeration", design="§2 C05",
+   technique="exhaustive single-fault enumeration: every tagged use site of every base module redirected to an undefined name and every definition duplicated, on the real parser; LLVM binds the fault model",
+   text="Base modules are all variants with <=1 (thorough <=2) deviations of the generator catalogue (1.2k / 9k modules in which every kind of reference site occurs). A tokenizer tags every definition and use of @globals, %locals/%types, $comdats, !N metadata and labels; every use site is redirected to a fresh undefined name and every definition (top-level entity, function, instruction result, label) is duplicated, one fault per run (7.7k / 45k faults). asm.ParseString must return an error and no module without panicking. A fault the library accepts or crashes on counts only if llvm-as rejects the faulted text; every 16th fault is sent to llvm-as regardless (all sampled faults are rejected by LLVM).",
+   note="Single faults only; undefined attribute-group IDs are the documented exception and are not faulted; repeated attribute groups / named metadata are legal and not counted as duplicates; definition/use tagging is done on the generator's line-oriented text."),
 }
 
 NOT_APPLICABLE = {}
